@@ -59,12 +59,14 @@ P_C09 == <<"C09">>
 P_C14 == <<"C14">>
 P_C06 == <<"C06">>
 P_C13 == <<"C13">>
+WL_pack == <<M("C", 0, 1, 1197), M("C", 0, 2, 1198), M("C", 0, 3, 90), M("C", 0, 4, 1200)>>
+WL_pack_U == <<M("C", 0, 1, 1198), M("C", 0, 2, 1199), M("C", 0, 3, 90), M("C", 0, 4, 1200)>>
 WL_U_RO_sliced == <<M("C", 0, 1, 1201), M("C", 1, 2, 2401)>>
 P_C15 == <<"C15">>
 P_C02 == <<"C02">>
 P_REL == <<"C01", "C02", "C03", "C08">>
 
-Cfg == [conns |-> <<1>>, sc |-> ChSC, cs |-> ChCS, budget |-> Budget, seqbase |-> 0, midbase |-> 0, props |-> PropsOn]
+Cfg == [conns |-> <<1>>, sc |-> ChSC, cs |-> ChCS, budget |-> Budget, seqbase |-> SeqBase, midbase |-> MidBase, props |-> PropsOn]
 
 Init == /\ w = NewWorld
         /\ obs = ObsReset(Cfg)
